@@ -23,7 +23,7 @@ MUST = ["graph.walks", "graph.identity_checks", "graph.inheritor_checks", "corru
         "kind.self-base", "kind.self-nesting", "kind.repoint"]
 RULE = ("case = generated document (identity walk of the loaded object graph) x every applicable single-point corruption: "
         "each structural reference renamed to an undefined name / re-pointed at another existing name; each definition "
-        "duplicated (identical, or with a change); each definition deleted; a base cycle, a nesting cycle, self-base and "
+        "duplicated (identical, with a structural change, or with a change of its descriptive text only); each definition deleted; a base cycle, a nesting cycle, self-base and "
         "self-nesting introduced at each container. Expectation per corruption: reject / accept; the loader's outcome "
         "(exception vs normal return) is compared with it and the graph invariant re-checked on every definition that "
         "loads. distinct_nontrivial = distinct (corruption kind, element kind, referenced?, outcome) signatures; the "
